@@ -240,11 +240,16 @@ class Session:
     async def wait_reply(self, seq, timeout=2.5, grace=10.0):
         """a reply that is merely late (loaded machine) is not a lost datagram: after `timeout` the wait goes on for
         `grace` more seconds before the caller may call it lost"""
+        if getattr(self, "lost", 0) >= 2:
+            # this association has already lost two datagrams for good: it is reported; do not spend the grace on every later one
+            timeout, grace = min(timeout, 1.0), 0
         r = await self._wait_reply(seq, timeout)
         if r is None and grace:
             r = await self._wait_reply(seq, grace)
             if r is not None:
                 self.late = getattr(self, "late", 0) + 1
+        if r is None:
+            self.lost = getattr(self, "lost", 0) + 1
         return r
 
     async def _wait_reply(self, seq, timeout):
